@@ -1,5 +1,5 @@
-(* C09 - Parse result independent of segment order (proved here); independence of separators and of
-   chunking is exercised by the correspondence and property streams (see MANIFEST level_note). *)
+(* C09 - Parse result independent of segment order, of the chunking of the stream, of the separator and of
+   the runs of line breaks around the segments (all proved here; the streams tie the models to the code). *)
 From Coq Require Import Permutation.
 From Wire Require Import Base.Bytes Model.GoV Model.Reader Theory.ReaderFacts.
 
@@ -54,3 +54,22 @@ Print Assumptions C09_separator_irrelevant.
 
 Example a_well_formed_segment : seg_ok (bs "{1510}1000") = true /\ sep_ok [x0d; x0a].
 Proof. split; [reflexivity|right; right; reflexivity]. Qed.
+
+(* line breaks in general: before the first segment and after every segment the text may hold any run of
+   line breaks (any concatenation of LF and CRLF, a different run each time, none included): doubled
+   separators, blank lines and mixed LF / CRLF texts read like the plain text *)
+From Wire Require Import Theory.SegmentsGen.
+
+Theorem C09_line_breaks_irrelevant : forall preset opts lead1 lead2 pairs1 pairs2 chunks1 chunks2 final,
+  map fst pairs1 = map fst pairs2 ->
+  break_run lead1 = true -> break_run lead2 = true ->
+  forallb pair_ok pairs1 = true -> forallb pair_ok pairs2 = true ->
+  length (lead1 ++ text2 pairs1) < max_token -> length (lead2 ++ text2 pairs2) < max_token ->
+  concat chunks1 = lead1 ++ text2 pairs1 -> concat chunks2 = lead2 ++ text2 pairs2 ->
+  read_model preset opts chunks1 final = read_model preset opts chunks2 final.
+Proof. exact line_breaks_irrelevant. Qed.
+Print Assumptions C09_line_breaks_irrelevant.
+
+Example a_text_with_blank_lines :
+  pair_ok (bs "{1510}1000", [x0a; x0d; x0a; x0a]) = true /\ break_run [x0d; x0a; x0a] = true /\ break_run [x0d] = false.
+Proof. repeat split; reflexivity. Qed.
